@@ -114,7 +114,7 @@ func (in inst[T]) weighted(w float64) inst[T] { in.weight = w; return in }
 // its tail up to three times: once for Eqv and once per direction of Less);
 // measured about 0.115 s per case at arity 21 with uniformly chosen positions,
 // halving with each arity below. Arities >= 12 therefore get an absolute case
-// target per shard that keeps a sub-check near 0.15 s (quick) / 8 s (thorough).
+// target per shard that keeps a sub-check near 0.15 s (quick) / 5 s (thorough).
 func tupleWeight(arity int) float64 {
 	if arity < 12 {
 		return 0
@@ -127,7 +127,7 @@ func tupleWeight(arity int) float64 {
 	}
 	budget := 0.15
 	if kit.Thorough() {
-		budget = 8
+		budget = 5
 	}
 	w := budget / cost / float64(baseChecks)
 	if w >= 1 {
